@@ -3,7 +3,7 @@ EXTENDS BSCClient, Json
 CONSTANTS Depth
 VARIABLE hist
 Pick(S) == RandomElement(S)
-MInit == Init /\ hist = << [act |-> "Init", res |-> "ok", epoch |-> Epoch, number |-> InitNumber, set |-> InitSet, signer |-> InitSigner] >>
+MInit == Init /\ hist = << [act |-> "Init", res |-> "ok", epoch |-> Epoch, number |-> InitNumber, set |-> InitSet, ann |-> InitAnn, signer |-> InitSigner] >>
 Limit == (Cardinality(validators) \div 2) + 1
 (* validators that may seal the next block *)
 Eligibles == { v \in validators : \A seen \in DOMAIN recents : recents[seen] = v => ~(number + 1 < Limit \/ seen > USub(number + 1, Limit)) }
